@@ -50,6 +50,11 @@ def run_real(scn, choose):
     import lightstreamer_adapter.server as S
     from lightstreamer_adapter.interfaces.metadata import MetadataProvider
     sched = shim.Sched(choose)
+    if scn.get("fine_seed") is not None:
+        import random as _random
+        sched.fine = _random.Random(scn["fine_seed"])
+        sched.fine_p = scn.get("fine_p", 0.15)
+        sched.max_chunks = 200000
     sock = shim.Socket()
     saved = shim.install(sched, sock, cpu=8)
     run = Run()
